@@ -9,6 +9,8 @@ tbl="| seeded change | breaks | result | rules that fire | what it needs in orde
 for r in rows:
     tbl+="| `seeded/%s` | %s | %s | %s | %s |\n"%r
 n=len(rows); first=sum(1 for r in rows if r[2]=='detected')
+missed=[r[0] for r in rows if r[2].startswith('not detected')]
+missed_txt="None is left undetected." if not missed else ("Not detected: "+", ".join("`seeded/%s`"%m for m in missed)+" (the reason is in its row and in section 9).")
 sec=f'''## 11. Seeded breaking changes and which checks catch them
 
 Every change below was written by a fresh sub-agent that was given only the
@@ -21,7 +23,7 @@ checked with `./check <id> quick`, and undone. Patch, demonstration and
 `meta.json` are kept under `/verif/seeded/<id>-<n>/`. {n} changes so far; {first}
 were caught by the checks as they stood, the others only after the check was
 strengthened ("detected after ..." says what was missing; nothing was loosened
-to get there). None is left undetected.
+to get there). {missed_txt}
 
 {tbl}
 Hand-made one-line mutations used while building (not kept as files): PUBACK
